@@ -65,7 +65,7 @@ func init() {
 type c16Msg struct {
 	Kind    string `json:"kind"` // hello | data | eof | ping | udp | unknown-data | dup-hello | disconnect
 	Payload string `json:"payload,omitempty"`
-	Style   int    `json:"style"` // 0 = type, size, body as three writes; 1 = one write; 2 = body split over two writes
+	Style   int    `json:"style"`           // 0 = type, size, body as three writes; 1 = one write; 2 = body split over two writes
 	Raddr   string `json:"raddr,omitempty"` // udp: remote address of this datagram
 }
 
@@ -170,6 +170,7 @@ func genC16(seed uint64, idx int, tier string) *Scenario {
 	}
 	if r.Chance(0.3) {
 		sc.Params["yield_pct"] = []int{20, 40, 70}[r.Intn(3)]
+		sc.Params["yield_rounds"] = []int{1, 1, 4, 12}[r.Intn(4)]
 	}
 	if r.Chance(0.4) {
 		a := Actor{Kind: "vconn", Name: "udp", Src: "198.51.100.77:5000", Dst: "192.0.2.1:5353"}
